@@ -405,6 +405,8 @@ def run_job(job: Job, meta, workdir: Path):
     try:
         goto = prep_goto(meta, workdir)
         loops = show_loops(goto)
+        if os.environ.get("VERIF_SHOW_LOOPS"):
+            (workdir / f"{job.harness}.loops.txt").write_text("\n".join(loops))
         args, bounds, unwind = cbmc_args(job, meta, loops)
         res.loops = {"count": len(loops), "unwind_default": unwind, "unwindset": bounds}
         outp = workdir / f"{job.harness}.cbmc.json"
@@ -593,6 +595,7 @@ def run_property(prop, tier, seed):
     (VERIF / "evidence").mkdir(exist_ok=True)
     (VERIF / "replays").mkdir(exist_ok=True)
     jobs = prop.jobs(tier, seed)
+    gen_src = "\n".join(j.gen for j in jobs if j.gen)
     only = os.environ.get("VERIF_ONLY")
     if only:
         jobs = [j for j in jobs if re.search(only, j.harness)]
@@ -601,7 +604,6 @@ def run_property(prop, tier, seed):
     codegen_s = 0.0
     fatal = None
     try:
-        gen_src = "\n".join(j.gen for j in jobs if j.gen)
         ov.create(prop.MODULES, dump_body_all(), gen_src, getattr(prop, "ACCESS", None))
         data = native_dump(ov, bool(getattr(prop, "DUMP", [])))
         (ov.tree / "src" / "verif" / "dump.rs").write_text(dump_rs(data, getattr(prop, "DUMP", [])))
